@@ -1418,6 +1418,8 @@ func (p *Printer) command(cmd Command, redirs []*Redirect) (startRedirs int) {
 		p.word(cmd.Description)
 		p.space()
 		p.stmt(cmd.Body)
+		// Such as the one in "@test "x" { foo; } <<EOF # comment".
+		p.comments(cmd.Body.Comments...)
 	default:
 		panic(fmt.Sprintf("syntax.Printer: unexpected node type %T", cmd))
 	}
